@@ -585,12 +585,104 @@ fn check_entries(ch: &mut Choices, cx: &mut Ctx) -> R {
     Ok(())
 }
 
+/// Line-number rows: the state a sequence starts from never depends on what the same `LineRows` processed before.
+/// A multi-sequence program (the C04 generator: every register-setting opcode, several sequences) is run straight
+/// through; every sequence is then resumed on its own (`sequences` + `resume_from`, in reverse order and twice), and
+/// a clone taken at every row boundary is continued: the rows must be those of the straight run.
+fn check_line_state(ch: &mut Choices, cx: &mut Ctx) -> R {
+    use crate::linemodel::build_line;
+    cx.label("line rows: resumed and cloned");
+    let big = ch.bool();
+    let h = crate::c04::gen_header(ch);
+    let ops = crate::c04::gen_program(ch, &h);
+    let prog = crate::c04::encode_program(&ops, &h, big);
+    let (bytes, _) = build_line(&h, big, &prog);
+    let endian = if big { RunTimeEndian::Big } else { RunTimeEndian::Little };
+    cx.sample_with(|| format!("line program v{} addr{} {:?}", h.version, h.address_size, ops));
+    let dl = gimli::DebugLine::new(&bytes, endian);
+    let Ok(program) = dl.program(gimli::DebugLineOffset(0), h.address_size, None, None) else {
+        cx.label("line rows: header refused");
+        return Ok(());
+    };
+    let show = |r: &gimli::LineRow| format!("{:#x}.{} f{} l{:?} c{:?} s{} bb{} end{} pe{} eb{} isa{} d{}", r.address(), r.op_index(), r.file_index(), r.line(), r.column(), r.is_stmt(), r.basic_block(), r.end_sequence(), r.prologue_end(), r.epilogue_begin(), r.isa(), r.discriminator());
+    // straight run, grouped by sequence
+    let mut groups: Vec<Vec<String>> = vec![Vec::new()];
+    let mut all: Vec<String> = Vec::new();
+    {
+        let mut rows = program.clone().rows();
+        loop {
+            match rows.next_row() {
+                Ok(Some((_, r))) => {
+                    let s = show(r);
+                    all.push(s.clone());
+                    groups.last_mut().unwrap().push(s);
+                    if r.end_sequence() {
+                        groups.push(Vec::new());
+                    }
+                }
+                Ok(None) => break,
+                Err(_) => {
+                    cx.label("line rows: program ends in an error");
+                    return Ok(());
+                }
+            }
+            if all.len() > 4096 {
+                return Ok(());
+            }
+        }
+    }
+    groups.retain(|g| !g.is_empty());
+    // clones taken at every row boundary
+    for k in 0..=all.len().min(24) {
+        let mut rows = program.clone().rows();
+        for _ in 0..k {
+            let _ = rows.next_row();
+        }
+        let mut c = rows.clone();
+        // the original moves on before the clone does
+        let _ = rows.next_row();
+        for (i, want) in all.iter().enumerate().skip(k) {
+            match c.next_row() {
+                Ok(Some((_, r))) => ensure_eq!(&show(r), want, "c20/line/clone-differs", "clone taken after {} rows, row #{}", k, i),
+                other => fail!("c20/line/clone-ends", "clone taken after {} rows stops at row #{}: {:?}", k, i, other.map(|o| o.is_some())),
+            }
+        }
+        ensure!(matches!(c.next_row(), Ok(None)), "c20/line/clone-extra", "clone taken after {} rows yields more rows than the straight run", k);
+    }
+    // every sequence resumed on its own: its rows are those of the straight run, whatever was processed before
+    let Ok((complete, seqs)) = program.clone().sequences() else {
+        cx.label("line rows: sequences() refused");
+        return Ok(());
+    };
+    for round in 0..2 {
+        for s in seqs.iter().rev() {
+            let mut rr = complete.resume_from(s);
+            let mut got = Vec::new();
+            loop {
+                match rr.next_row() {
+                    Ok(Some((_, r))) => got.push(show(r)),
+                    Ok(None) => break,
+                    Err(e) => fail!("c20/line/resume-error", "{:?}", e),
+                }
+                if got.len() > 4096 {
+                    break;
+                }
+            }
+            ensure!(groups.iter().any(|g| *g == got), "c20/line/resume-differs", "round {}: the sequence [{:#x},{:#x}) resumed on its own gives {:?}, which is not a sequence of the straight run {:?}", round, s.start, s.end, got, groups);
+        }
+    }
+    if groups.len() >= 2 {
+        cx.nt();
+    }
+    Ok(())
+}
+
 impl Prop for C20 {
     fn id(&self) -> &'static str {
         "C20"
     }
     fn rule(&self) -> &'static str {
-        "(a) pools of 2-4 generated FDEs (the C06 generator: every call-frame instruction, programs that fail in the CIE's initial instructions, mid-FDE, by row-stack or rule overflow, CIEs with 0, 1 and many initial rules, extra DW_CFA_GNU_args_size) evaluated on one UnwindContext (heap storage and fixed storages 2x2, 4x4, 3x5, 193x5) along every ordered pair, every triple for pools <= 3 and four generated histories of length 3-7 whose steps consume all rows, one row or three rows: each step's rows and outcome must equal those on a fresh context; (b) one DebuggingInformationEntry buffer reused across all entries of generated units vs a fresh buffer per entry; (c) EntriesTree::root called again after 1-3 partial traversals of generated length vs a fresh tree; (d) clones of the depth-first cursor, of LineRows, of operation iterators, of the CFI entries iterator and of the unit-header iterator taken at every position (the original is advanced further before the clone moves) vs an uninterrupted iteration; (e) Dwarf::unit for every unit with the abbreviation cache populated under Duplicates / All, in forward or reverse order and twice, incl. units sharing one abbreviation table and a unit whose abbreviation offset is invalid, vs the uncached result, and histories of 2-5 steps on one cache mixing manual `set` of a foreign table with `populate` under either strategy (documented to discard existing entries): after every populate each unit equals the uncached result. Non-trivial = a pool with both failing and succeeding FDEs, or a re-rooted tree of >= 3 entries; distinct by choice string."
+        "(a) pools of 2-4 generated FDEs (the C06 generator: every call-frame instruction, programs that fail in the CIE's initial instructions, mid-FDE, by row-stack or rule overflow, CIEs with 0, 1 and many initial rules, extra DW_CFA_GNU_args_size) evaluated on one UnwindContext (heap storage and fixed storages 2x2, 4x4, 3x5, 193x5) along every ordered pair, every triple for pools <= 3 and four generated histories of length 3-7 whose steps consume all rows, one row or three rows: each step's rows and outcome must equal those on a fresh context; (b) one DebuggingInformationEntry buffer reused across all entries of generated units vs a fresh buffer per entry; (c) EntriesTree::root called again after 1-3 partial traversals of generated length vs a fresh tree; (d) clones of the depth-first cursor, of LineRows, of operation iterators, of the CFI entries iterator and of the unit-header iterator taken at every position (the original is advanced further before the clone moves) vs an uninterrupted iteration; (d') multi-sequence line programs (the C04 generator) run straight through vs every sequence resumed on its own through sequences()/resume_from (reverse order, twice) and vs clones taken at every row boundary; (e) Dwarf::unit for every unit with the abbreviation cache populated under Duplicates / All, in forward or reverse order and twice, incl. units sharing one abbreviation table and a unit whose abbreviation offset is invalid, vs the uncached result, and histories of 2-5 steps on one cache mixing manual `set` of a foreign table with `populate` under either strategy (documented to discard existing entries): after every populate each unit equals the uncached result. Non-trivial = a pool with both failing and succeeding FDEs, or a re-rooted tree of >= 3 entries; distinct by choice string."
     }
     fn assumptions(&self) -> Vec<&'static str> {
         vec!["fresh state is the oracle: the same gimli code on newly created contexts, buffers, trees, iterators and an unpopulated cache"]
@@ -607,10 +699,10 @@ impl Prop for C20 {
         }
     }
     fn run_case(&self, ch: &mut Choices, cx: &mut Ctx) -> R {
-        if ch.bool() {
-            check_context(ch, cx)
-        } else {
-            check_entries(ch, cx)
+        match ch.below(8) {
+            0..=3 => check_context(ch, cx),
+            4 => check_line_state(ch, cx),
+            _ => check_entries(ch, cx),
         }
     }
 }
